@@ -211,9 +211,19 @@ func runOptCase(o *Oracle, d json.RawMessage, oc *Outcome) {
 	s1 := solver.New(c.problem())
 	s1.CuttingPlanes = c.CP
 	obs := watchAppends(s1)
+	sw1 := &stableWatch{s: s1, entry: "solver.Optimal"}
+	sw1.check(oc, "before the call")
+	nApp1 := 0
+	s1.VerifSetAppendedHook(func() {
+		if nApp1++; nApp1 <= 40 {
+			sw1.check(oc, fmt.Sprintf("after AppendClause %d", nApp1))
+		}
+	})
 	an1 := sampleAnalyses(s1, 2, 40, 4)
 	r1 := runOptimal(s1, 0, nil)
 	s1.VerifSetAppendHook(nil)
+	s1.VerifSetAppendedHook(nil)
+	sw1.check(oc, "after the call")
 	s1.VerifSetAnalyzeHook(nil)
 	if !c.CP {
 		// conflict analysis with the bound constraints among the antecedents (GS.Analyze, analyze_sound_pb)
